@@ -538,9 +538,10 @@ def build_component_class(spec, dynamic=False, extra_attrs=None, module="verif_p
             elif d[0] == "inject":
                 _, key, field, default = d
                 if default is not None:
-                    v = self.inject(key, _SENTINEL)
-                    if v is _SENTINEL:
-                        data[name] = default
+                    # the spec's default itself goes to inject() (falsy defaults such as 0 included)
+                    v = self.inject(key, default)
+                    if not (isinstance(v, tuple) and hasattr(v, "_fields")):
+                        data[name] = v
                         continue
                 else:
                     v = self.inject(key)
